@@ -383,7 +383,9 @@ class AllocCheck:
             b = make_buffer(cpu, ctxmod, case["kind"], case["capacity"], [tuple(c) for c in case["chunks"]], case["alignment"], case["grow_step"])
             getattr(b, case["op"])(**case["args"])
             ch = [(c.start, c.end) for c in b.chunks]
-            ok = all(0 <= s <= e <= b.capacity for s, e in ch) and all(ch[i][1] <= ch[i + 1][0] for i in range(len(ch) - 1))
+            ok = all(0 <= s <= e <= b.capacity for s, e in ch)
+            pos = [c for c in ch if c[1] > c[0]]  # empty chunks hold no byte: they cannot make two allocations overlap
+            ok = ok and all(pos[i][1] <= pos[i + 1][0] for i in range(len(pos) - 1))
             live = [tuple(r) for r in case["live"] if not (case["op"] == "free" and tuple(r) == (case["args"].get("offset"), case["args"].get("size")))]
             ok = ok and all(n == 0 or all(e <= o or o + n <= s or s == e for s, e in ch) for o, n in live)
             return ok and len(b.buffer) == b.capacity
